@@ -17,8 +17,9 @@ import types
 from .common import cbool, clist
 
 PYVER = sys.version_info[:2]
-assert PYVER in ((3, 11), (3, 12)), "the with-machine models CPython 3.11 and 3.12 bytecode"
-VER = "V312" if PYVER == (3, 12) else "V311"
+# the with-machine models CPython 3.11 and 3.12 bytecode; under 3.9 / 3.10 only the corpus helpers of this
+# module are used (harness/bs_child.py: block-stack model M_BlockStack.v) and abstract_code refuses
+VER = "V312" if PYVER == (3, 12) else ("V311" if PYVER == (3, 11) else None)
 
 # (pops, pushes) of the opcodes that are plain IGen; cross-checked against dis.stack_effect
 _FIXED = {
@@ -95,6 +96,8 @@ def abstract_code(co: types.CodeType):
     """-> (units, table): units[i] is a tuple describing code unit i (see `unit_coq`), table is a
     list of (start, end_inclusive, target, depth, lasti) in code units, parsed with `dis`
     (independently of stackscope's own parser)."""
+    if VER is None:
+        raise Unsupported("the with-machine models CPython 3.11 and 3.12 bytecode")
     instrs = list(dis.get_instructions(co, show_caches=True))
     units = []
     for k, ins in enumerate(instrs):
@@ -443,4 +446,5 @@ def iter_codes(co):
 
 
 def has_with(co) -> bool:
-    return any(i.opname in ("BEFORE_WITH", "BEFORE_ASYNC_WITH") for i in dis.get_instructions(co))
+    return any(i.opname in ("BEFORE_WITH", "BEFORE_ASYNC_WITH", "SETUP_WITH", "SETUP_ASYNC_WITH")
+               for i in dis.get_instructions(co))
